@@ -24,7 +24,9 @@ def parseSigs (s : String) : Option (List Sig) :=
 def parseCanon (s : String) : Option Vaa :=
   match s.splitOn "," with
   | [ver, gs, sigs, ts, nonce, ec, tc, em, seq, cl, pl] => do
-    let ver ← ver.toNat?; let gs ← gs.toNat?; let sigs ← parseSigs sigs; let ts ← ts.toNat?
+    let ver ← ver.toNat?; let gs ← gs.toNat?; let sigs ← parseSigs sigs
+    -- a negative Unix time (outside the wire range) is kept as an out-of-range value so that it compares unequal
+    let ts ← (ts.toInt?).map fun (t : Int) => if t < 0 then 18446744073709551616 + t.natAbs else t.toNat
     let nonce ← nonce.toNat?; let ec ← ec.toNat?; let tc ← tc.toNat?; let em ← parseHexD em
     let seq ← seq.toNat?; let cl ← cl.toNat?; let pl ← parseHexD pl
     pure { version := ver, gsIndex := gs, sigs := sigs,
